@@ -276,7 +276,7 @@ def run_shard(desc, seed, tier):
                         case = {"text": pre + body + tails[(n + ti * 5) % len(tails)], "container": None if n % 3 else ["div", "table", "tr", "select", "frameset", "td", "colgroup"][n % 7],
                                 "scripting": bool(n % 2)}
                         acc.add(case, check_case(case))
-        for k, text in enumerate(soup.foreign_namesake_docs()):
+        for k, text in enumerate(soup.foreign_namesake_docs() + soup.integration_afe_docs() + soup.newline_docs()):
             case = {"text": ("<!DOCTYPE html>" if k % 2 else "") + text, "container": None if k % 5 else "div", "scripting": bool(k % 3 == 0)}
             acc.add(case, check_case(case))
         acc.extra["distinct_name_cases"] = n
